@@ -257,7 +257,7 @@ def add_rules(rep, prog):
     okr = len(rets) == 1 and rets[0].value == ("after", lid, g)
     asserted = False
     if okr:
-        have = resolve(conj(rets[0].path))
+        have = resolve(conj(tuple(rets[0].path) + tuple(getattr(rets[0], "asserts", ()))))
         fins = [padd(poly(("method", ("after", lid, g), "sum", (), ())), poly(("method", B, "sum", (), ())), -1)]
         if cnt_name:
             fins.append(poly(("after", lid, cnt_name)))
